@@ -3,6 +3,7 @@
  * child's fate must be the library's controlled abort.  DESIGN.md, C20. */
 #define _GNU_SOURCE
 #include "engutil.h"
+#include "../core/sched.h"
 #include <stdlib.h>
 #include <unistd.h>
 
@@ -37,7 +38,15 @@ static void child_run(void *ud) {
     if (!armed && a->fault_line == lineno) { heap_arm_fail(a->nth); armed = 1; }
     int rc = prog_exec_line(&c, line);
     if (rc == 1 || rc < 0) { snprintf(sim_shared->note, sizeof sim_shared->note, "skip line %d: %s (%s)", lineno, line, c.skipwhy); sim_shared->aux[1] = 1; return; }
+    if (!strncmp(line, "lib ", 4) && c.L->openmp) { /* OpenMP build: parallel regions run on the simulated runtime (team of 3, seeded coarse preemption) */
+      sched_cfg_t sc;
+      memset(&sc, 0, sizeof sc);
+      sc.seed = fnv1a(a->text, strlen(a->text), FNV0); sc.mode = 1; sc.team_size = 3; sc.logp[YC_RUNTIME] = 1; sc.logp[YC_CRITICAL] = 1; sc.logp[YC_HEAP] = 2; sc.event_budget = (uint64_t)5e8;
+      sched_reset(&sc);
+      sched_enable(1);
+    }
   }
+  sched_enable(0);
   if (a->dry && lineno + 1 < 64) ((volatile long *)(sim_shared + 1))[lineno + 1] = heap_request_count();
   sim_shared->result_hash = ctx_hash(&c);
   ctx_free_all(&c);
@@ -46,17 +55,21 @@ static void child_run(void *ud) {
   sim_shared->completed = 1;
 }
 
+static int g_omp_mode;
+static const char *OMP_SCEN[] = { "mul_mp", "addmul_mp", "mul_m4rm", "ech_m4ri", "mul", "addmul_m4rm", "inv_m4ri" };
+#define NOMP_SCEN 7
 static void gen_scenario(uint64_t rseed, uint64_t idx, const char *tier, sbuf_t *o, char *scen, size_t scensz) {
   rng_t root = rng_make(rseed);
   rng_t rg = rng_split(&root, "gen");
   int nops = gen_nops();
-  int total = nops + NEXTRA;
+  int total = g_omp_mode ? NOMP_SCEN : nops + NEXTRA;
   int which = (int)(idx % (uint64_t)total);
-  const char *op = which < nops ? gen_all_ops[which] : EXTRA_SCEN[which - nops];
+  const char *op = g_omp_mode ? OMP_SCEN[which] : which < nops ? gen_all_ops[which] : EXTRA_SCEN[which - nops];
   snprintf(scen, scensz, "%s", op);
   int cls = (int)((idx / (uint64_t)total) % 3);
   if (!strcmp(tier, "quick")) cls = (int)((idx / (uint64_t)total) % 2);
   int dims[] = { 24, 150, 420 };
+  if (g_omp_mode) { dims[0] = 140; dims[1] = 300; dims[2] = 420; } /* large enough for sections / several chunks to exist */
   genopt_t g = { dims[cls], 0 };
   if (rng_chance(&rg, 1, 4)) g.winprob = 6; /* operands that are views: the library copies them into temporaries on several paths */
   const lib_t *L = m4sim_libs[rng_below(&rg, (uint64_t)m4sim_nlibs)];
@@ -84,7 +97,9 @@ typedef struct { long n, die, viol, notfired, skipped; uint64_t hash; uint64_t s
 static const char *viol_class(const child_res_t *r, int fired) {
   switch (r->fate) {
   case FATE_DIE: return (sim_shared->stderr_bytes > 0) ? NULL : "silent_abort";
-  case FATE_EXIT0: return fired ? "completed_after_failed_allocation" : "HARNESS_not_fired";
+  case FATE_EXIT0:
+    if (sim_shared->aux[6]) return "hang_after_failed_allocation"; /* simulated runtime: no task runnable / event budget exhausted */
+    return fired ? "completed_after_failed_allocation" : "HARNESS_not_fired";
   case FATE_SANITIZER: return "sanitizer_report";
   case FATE_SEGV: return "segv";
   case FATE_ABORT_FOREIGN: return "abort_not_from_library";
@@ -174,6 +189,7 @@ static int cmd_worker(int argc, char **argv) {
   uint64_t seed = strtoull(argv[2], NULL, 10), first = strtoull(argv[3], NULL, 10), count = strtoull(argv[4], NULL, 10);
   const char *tier = argv[5], *outdir = argv[6];
   double budget = argc > 7 ? atof(argv[7]) : 1e9, t0 = eng_now();
+  g_omp_mode = argc > 8 && !strcmp(argv[8], "omp");
   char errpath[512], cur[512];
   snprintf(errpath, sizeof errpath, "%s/stderr-%llu.txt", outdir, (unsigned long long)first);
   snprintf(cur, sizeof cur, "%s/cur-%llu.prog", outdir, (unsigned long long)first);
